@@ -29,6 +29,7 @@ class Report:
         self.write = write
         self.exhaustive = None
         self.extra = {}
+        self.deferred = []
 
     # -- recording ------------------------------------------------------------------------
     def rule(self, rid, text):
@@ -62,8 +63,10 @@ class Report:
     def minimum(self, what, count, minimum):
         self.minima.append(dict(what=what, count=count, minimum=minimum))
         if count < minimum:
-            raise AnalysisError('%s: %d instance(s) of "%s" found, at least %d were confirmed by hand on '
-                                'the reference tree - the rule would pass vacuously' % (self.prop, count, what, minimum))
+            # deferred: a violation found elsewhere in the run is still reported (exit 1); without one the
+            # run ends as ANALYSIS-ERROR (exit 2), never as a silent pass
+            self.deferred.append('%d instance(s) of "%s" found, at least %d were confirmed by hand on the reference '
+                                 'tree - the rule would pass vacuously' % (count, what, minimum))
 
     # -- finishing ------------------------------------------------------------------------
     def _known(self):
@@ -73,6 +76,10 @@ class Report:
         except FileNotFoundError:
             return []
         return [e for e in data.get('findings', []) if e.get('property') == self.prop]
+
+    def new_violations(self):
+        known_open = {(e['rule'], e['construct']) for e in self._known() if e.get('status') == 'open'}
+        return [v for v in self.violations if (v['rule'], v['construct']) not in known_open]
 
     def finish(self):
         known_open = {(e['rule'], e['construct']): e for e in self._known() if e.get('status') == 'open'}
